@@ -70,7 +70,14 @@ def bounds(tier):
                 four_reaction_systems="explored with the quick-tier plan (c* #0,#1; 18 configs; direct zero test on full extents for c*#0)")
 
 
+OFFER_SYSTEMS = [((1,), "fwd"), ((0, 1), "fwd"), ((4,), "rev"), ((0, 5), "fwd")]  # nh4 | water+nh4 | cunh3 | water+cr2o7
+
+
 def chunks(tier):
+    return _chunks_f(tier) + [("G", i, j) for i in range(len(OFFER_SYSTEMS)) for j in range(4)]
+
+
+def _chunks_f(tier):
     b = bounds(tier)
     out = []
     for idx in M.subsets(len(b["pool"]), b["max_subset"]):
@@ -452,8 +459,116 @@ def check_history(res, ctx, cfg, tr):
             res.outcomes["HISTORY-zero-off-equilibrium"] += 1
             res.violation("C07|%s|zero-off-equilibrium-stale-constants" % site, "evaluation %d (%r) on an instance already evaluated with the true K vanishes in every component" % (n, pert), case, "all zero", "non-zero")
             return False
+    # the substances of the same system object re-ordered in place: concentrations are then given in the new order
+    try:
+        es = ns.eqsys
+        es.sort_substances_inplace(key=lambda kv: tuple(-ord(ch) for ch in kv[0]))
+        order = list(es.substances)
+        c_new = [ctx.cstar[n] for n in order]
+        init_new = dict(zip(ctx.names, ctx.init((1,) * nr, "milli")))  # (a non-zero extent: with init == c* any matrix would do)
+        params = [_R(init_new[n]) for n in order] + [_R(k) for k in ctx.K]
+        f = list(ns.f(transform_exact(tr, c_new), params))
+        res.evaluations += 1
+        nz = [k for k, e in enumerate(f) if zero_class(e) is None]
+        if len(f) != expected_len(ctx, cfg) or nz:
+            res.outcomes["HISTORY-reorder-WRONG"] += 1
+            res.violation("C07|%s|after-reordering-substances-in-place" % site, "after sort_substances_inplace() on the evaluated system (order %s): %d equations (expected %d), non-zero components %s at c*" % (
+                order, len(f), expected_len(ctx, cfg), [str(f[k])[:50] for k in nz]), dict(case, what="reorder"), [str(e)[:50] for e in f], "0 in each of %d components" % expected_len(ctx, cfg))
+            return False
+    except Exception as e:
+        res.outcomes["HISTORY-reorder-raises"] += 1
+        res.violation("C07|%s|after-reordering-substances-in-place" % site, "evaluation after sort_substances_inplace() raised %s: %s" % (type(e).__name__, str(e)[:100]), dict(case, what="reorder"), "EXC %s" % type(e).__name__, None)
+        return False
     res.outcomes["history-ok"] += 1
     return True
+
+
+# --------------------------------------------------------------------------------------------- what the root finder is offered
+OFFER_TYPES = ("static_conditions", "chained_conditional", "conditional_chained")
+OFFER_CHAINS = (("Log",), ("Lin",), ("Log", "Lin"), ("Lin", "Log"), ("Square", "Log"))
+OFFER_FLAGS = ({}, {"rref_preserv": True}, {"rref_equil": True}, {"rref_equil": True, "rref_preserv": True})
+
+
+def offer_sequences(tier):
+    """sequences of get_neqsys requests made one after the other in ONE process (flags set in one request must not
+    carry over to the next): every ordered pair of flag settings x neqsys type, for a few chains"""
+    out = []
+    for ntype in OFFER_TYPES:
+        for chain in OFFER_CHAINS:
+            for fa, fb in itertools.permutations(range(len(OFFER_FLAGS)), 2):
+                if tier == "quick" and len(chain) == 1 and (fa, fb) not in ((1, 0), (2, 0), (3, 0), (0, 3)):
+                    continue
+                out.append([[ntype, list(chain), fa], [ntype, list(chain), fb]])
+    return out
+
+
+def seq_offered(idx, order, variant, seq):
+    """(own interpreter) for every request of `seq`: per stage of the returned system the number of equations and the
+    largest |residual| at the transformed equilibrium state c* (50 digits)"""
+    import sympy as sp
+
+    ctx = Ctx(tuple(idx), order, variant)
+    out = []
+    for ntype, chain, fi in seq:
+        flags = dict(OFFER_FLAGS[fi])
+        try:
+            with warnings.catch_warnings():
+                warnings.simplefilter("ignore")
+                neq = ctx._mk_eqsys().get_neqsys(ntype, NumSys=tuple(_numsys(c) for c in chain), **flags)
+                if ntype == "conditional_chained":
+                    stages = list(neq.neqsys_factory(()).neqsystems)
+                elif ntype == "chained_conditional":
+                    stages = [st.neqsys_factory(()) for st in neq.neqsystems]
+                else:
+                    stages = list(neq.neqsystems)
+            obs = []
+            for st, cname in zip(stages, chain):
+                tr = TRANSFORMS[cname][0]
+                xs = transform_exact(tr, ctx.cvec())
+                ps = [_R(x) for x in ctx.init((0,) * ctx.nr, "milli")] + [_R(k) for k in ctx.K]
+                sub = dict(zip(st.x, xs))
+                sub.update(dict(zip(st.params, ps)))
+                worst = max([abs(sp.N(sp.sympify(e).subs(sub), 50)) for e in st.exprs] or [0])
+                obs.append([int(st.nf), bool(worst <= sp.Float(ZERO_TOL)), str(sp.N(worst, 6))])
+            out.append(obs)
+        except Exception as e:
+            out.append("EXC %s: %s" % (type(e).__name__, str(e)[:80]))
+    return out
+
+
+def check_offered(res, ctx, seq):
+    from mc import isolated
+
+    got = isolated.run("mc.checks.c07", "seq_offered", [list(ctx.idx), ctx.order, ctx.variant, seq])
+    for n, ((ntype, chain, fi), obs) in enumerate(zip(seq, got)):
+        res.states += 1
+        res.transitions += 1
+        res.evaluations += 1
+        res.nontrivial += 1
+        flags = OFFER_FLAGS[fi]
+        case = dict(layer="G", idx=list(ctx.idx), order=ctx.order, variant=ctx.variant, seq=seq, step=n, kinv=None)
+        want = ctx.nr + (ctx.rankB if flags.get("rref_preserv") else len(ctx.keys))
+        site = "get_neqsys|%s|%s|%s" % (ntype, "+".join(chain), ",".join(sorted(flags)) or "no-flags")
+        hist = "" if n == 0 else " after a request with %s" % (",".join(sorted(OFFER_FLAGS[seq[n - 1][2]])) or "no flags")
+        if isinstance(obs, str):
+            res.outcomes["offered-RAISES"] += 1
+            res.violation("C07|%s|raises" % site, "get_neqsys(%r, %s, %r)%s raised %s" % (ntype, chain, flags, hist, obs), case, obs, None)
+            continue
+        bad = None
+        if len(obs) != len(chain):
+            bad = ("stages", "%d stages for a chain of %d formulations" % (len(obs), len(chain)))
+        else:
+            for cname, (nf, zero, worst) in zip(chain, obs):
+                if nf != want:
+                    bad = ("equation-count", "stage %s has %d equations, nr + conservation relations = %d" % (cname, nf, want))
+                    break
+                if not zero:
+                    bad = ("stage-not-the-requested-formulation", "stage %s does not vanish at %s(c*): |f| up to %s" % (cname, TRANSFORMS[cname][0], worst))
+                    break
+        res.outcomes["offered-ok" if bad is None else "offered-WRONG"] += 1
+        if bad:
+            res.violation("C07|%s|%s%s" % (site, bad[0], "|after-other-request" if n else ""), "get_neqsys(%r, %s, %r)%s for %s: %s" % (
+                ntype, chain, flags, hist, "+".join(M.TAGS[i] for i in ctx.idx), bad[1]), case, obs, want)
 
 
 def check_quotients(res, ctx):
@@ -511,6 +626,17 @@ def check_conservation(res, ctx, xi, scale):
 
 # --------------------------------------------------------------------------------------------- chunks
 def run_chunk(chunk, tier):
+    if chunk[0] == "G":
+        res = Result()
+        idx, order = OFFER_SYSTEMS[chunk[1]]
+        ctx = Ctx(idx, order, 0)
+        seqs = offer_sequences(tier)
+        # all requests of this chunk are made one after the other in ONE fresh process (a long history of requests):
+        # whatever one request leaves behind shows up in a later one
+        flat = [req for k, seq in enumerate(seqs) if k % 4 == chunk[2] for req in seq]
+        check_offered(res, ctx, flat)
+        res.sample(dict(layer="G", system=[M.TAGS[i] for i in idx], sequences=len(seqs), example=seqs[0]), limit=1)
+        return res
     idx, order = chunk
     b = bounds(tier)
     res = Result()
@@ -585,6 +711,10 @@ def replay(case):
     ctx = Ctx(tuple(case["idx"]), case["order"], case["variant"], kinv=case.get("kinv"))
     if layer == "f":
         check_one(res, ctx, tuple(case["cfg"]), case["tr"], tuple(case["xi"]), case["scale"], tuple(case["pert"]) if case.get("pert") else None, case["mode"])
+    elif layer == "G":
+        sub = Result()
+        check_offered(sub, ctx, case["seq"])
+        res.violations = [v for v in sub.violations if v["case"]["step"] == case["step"]]
     elif layer == "H":
         check_history(res, ctx, tuple(case["cfg"]), case["tr"])
     elif layer == "Q":
